@@ -157,3 +157,37 @@ func VH_C07_step_NR() {
 		}
 	}
 }
+
+// concurrent copies of one handshake: exactly one is accepted (every schedule with up to 2
+// preemptions at synchronisation points; natively repeated)
+func VH_C07_concurrent() {
+	verifSched(2)
+	for rep := 0; rep < verifRepeat(3000); rep++ {
+		c := NewReplayCache(2)
+		if verifFlag("prefill") {
+			c.Add("x", []byte{9, 9, 9, 9}) // an unrelated remembered handshake
+		}
+		salt := []byte{1, 2, 3, 4}
+		k := 2
+		if verifNative() {
+			k = 8 // more simultaneous copies make the window likely to be hit natively
+		}
+		res := make([]bool, k)
+		fs := make([]func(), k)
+		for i := range fs {
+			i := i
+			fs[i] = func() { res[i] = c.Add("a", salt) }
+		}
+		start := make(chan struct{})
+		verifParStart(start, fs...)
+		served := 0
+		for _, r := range res {
+			if r {
+				served++
+			}
+		}
+		verifAssert("C07.concurrent.exactly-one-served", served == 1)
+		verifAssert("C07.concurrent.later-copy-refused", !c.Add("a", salt))
+	}
+	verifReach("C07.concurrent.done", true)
+}
